@@ -13,6 +13,7 @@ import (
 
 // VCall is one recorded validator call.
 type VCall struct {
+	Seq     int64
 	Kind    string // push, pull, restart
 	Chid    datatransfer.ChannelID
 	Other   peer.ID
@@ -33,6 +34,7 @@ type RecValidator struct {
 func (v *RecValidator) answer(c VCall) (datatransfer.ValidationResult, error) {
 	v.mu.Lock()
 	n := len(v.Calls)
+	c.Seq = NextSeq()
 	v.Calls = append(v.Calls, c)
 	f := v.Answer
 	v.mu.Unlock()
